@@ -10,5 +10,6 @@ sys.path.insert(0, ".")
 from sim import core
 core.compute_toolinfo()
 t = core.build()
-print("setup ok: build %.1fs, tools in %s" % (t, core.BIN))
+d = core.build_driver()
+print("setup ok: build %.1fs, tools in %s, API driver %s" % (t, core.BIN, d))
 PY
